@@ -582,7 +582,12 @@ func checkGetInfo(e *Env, p *load.Program) {
 					kd = "constant key is not runtime.GOARCH"
 				}
 			case *ssa.Call:
-				if flow.CalleeIs(x, "strings", "ToLower") && len(x.Call.Args) == 1 && x.Call.Args[0] == ssa.Value(name) {
+				if flow.CalleeIs(x, "strings", "ToLower") && len(x.Call.Args) == 1 {
+					if x.Call.Args[0] == ssa.Value(name) {
+						return
+					}
+					// the lower-case form of something that is itself an admissible key (the name, or GOARCH for "")
+					visit(x.Call.Args[0], name, depth+1)
 					return
 				}
 				h := flow.Callee(x)
@@ -648,6 +653,47 @@ func checkGetInfo(e *Env, p *load.Program) {
 			detail = fmt.Sprintf("found-edge=%v len-guard=%v", fok && fpol, lenOK)
 			if fok && fpol && lenOK {
 				good = true
+			}
+		}
+		if !good {
+			// several lookups (as given, then lower-cased): the returned value and the tested flag are phis of the same
+			// block whose corresponding edges are the (value, ok) pair of one lookup each
+			if pv, ok := flow.RetResults(ret)[0].(*ssa.Phi); ok {
+				for _, c := range conds {
+					pf, ok := c.V.(*ssa.Phi)
+					if !ok || !c.Pol || pf.Block() != pv.Block() || len(pf.Edges) != len(pv.Edges) {
+						continue
+					}
+					paired := true
+					for i := range pv.Edges {
+						ev, ok1 := pv.Edges[i].(*ssa.Extract)
+						ef, ok2 := pf.Edges[i].(*ssa.Extract)
+						if !ok1 || !ok2 || ev.Tuple != ef.Tuple || ev.Index != 0 || ef.Index != 1 {
+							paired = false
+							break
+						}
+						isLk := false
+						for _, lk := range lks {
+							if ev.Tuple == ssa.Value(lk) {
+								isLk = true
+							}
+						}
+						if !isLk {
+							paired = false
+						}
+					}
+					lenOK := false
+					for _, c2 := range conds {
+						pr, ok := flow.AsIntPred(c2.V, c2.Pol)
+						if ok && isLenOfField(pr.X, pv, "SyscallNames") && pr.NonZero() {
+							lenOK = true
+						}
+					}
+					detail = fmt.Sprintf("paired-lookups=%v len-guard=%v", paired, lenOK)
+					if paired && lenOK {
+						good = true
+					}
+				}
 			}
 		}
 		r.Check(good && flow.IsNilConst(flow.RetResults(ret)[1]), "E4.getinfo", key+"/success", p.Pos(ret.Pos()),
